@@ -129,6 +129,9 @@ func zzC17Op(op int, variant int, p, q *Package, val Object) {
 func VerifC17Pkg(op int, variant int) {
 	p, q := zzC17Setup()
 	val := Fixnum(vrt.Int64("val"))
+	vrt.Carve("C17-findfunc-unlocked", op == 16 || op == 17)
+	vrt.Carve("C17-compilelist-unlocked", op == 18 || op == 19)
+	vrt.Carve("C17-class-table-unlocked", op == 21 || op == 22)
 	if vrt.Symbolic() {
 		zzC17Guard(p, "p")
 		zzC17Guard(q, "q")
